@@ -19,6 +19,19 @@ def rules_for(prop):
         """SUB-1 / SUB-2 / SUB-3 / GEN-1 / GEN-3 on the modules a property is about (None: every module)"""
         rules = [sub.rule_sub1, sub.rule_sub2, sub.rule_sub3, sub.rule_gen1, sub.rule_gen3]
         return rules if not rels else [scoped(x, rels) for x in rules]
+    def error_paths(rule):
+        """the tree-wide protocol rule, keeping the findings about the paths an OnErrorMux takes (C13: an unhandled mux error reaches the
+        demultiplexer through every operator in between)"""
+        def run(ctx):
+            res = rule(ctx)
+            for r in (res if isinstance(res, list) else [res]):
+                kept = [f for f in r.findings if "[Error]" in f.construct]
+                r.discharged += len(r.findings) - len(kept)
+                r.findings = kept
+            return res
+        run.__name__ = getattr(rule, "__name__", "rule")
+        return run
+
     def plumbing(*rels):
         """SUB-3 / GEN-3 on the modules a property is about"""
         return [scoped(sub.rule_sub3, rels), scoped(sub.rule_gen3, rels)]
@@ -38,24 +51,24 @@ def rules_for(prop):
                 named(lv.rule_lv, only=("group_by_mux._group_by.on_subscribe",)), ms.ms_for_types("mapper", maps=True), ms.rule_tp1, *plumbing(*("rxsci/operators/group_by.py", "rxsci/operators/multiplex.py", "rxsci/state/with_store.py"))],
         "C05": [named(grp.rule_fwd1, heads=("roll",)), grp.rule_roll, named(grp.rule_fw1, heads=("roll_count",)), scoped(st.rule_st2_3_4, ROLL), scoped(st.rule_st6, ROLL),
                 named(lv.rule_lv, only=("roll_mux._roll.subscribe", "roll_mux._roll_count.subscribe")), ms.ms_for_types("int", "uint"), *plumbing(*ROLL)],
-        "C08": per_subscription("rxsci/operators/tee_map.py") + [tm.rule_tm123, tm.rule_tm4, tm.rule_tm5, st.rule_st5, mx.rule_mx7],
-        "C09": scan.RULES + per_subscription("rxsci/operators/scan.py", "rxsci/operators/count.py", "rxsci/data/to_list.py", "rxsci/data/to_array.py") + [ms.ms_for_types("int", "float", "bool", "obj")],
+        "C08": per_subscription("rxsci/operators/tee_map.py") + [tm.rule_tm123, tm.rule_tm4, tm.rule_tm5, st.rule_st5, mx.rule_mx7, ag.rule_ag1],
+        "C09": scan.RULES + per_subscription("rxsci/operators/scan.py", "rxsci/operators/count.py", "rxsci/data/to_list.py", "rxsci/data/to_array.py") + [ms.ms_for_types("int", "float", "bool", "obj", maps=True)],
         "C10": seq.RULES + per_subscription(*SEQ) + [only_constructs(ag.rule_ag1, SEQ), only_constructs(ag.rule_ag2, SEQ), scan.rule_sc1, named(grp.rule_eq1, files=("rxsci/operators/distinct.py", "rxsci/operators/distinct_until_changed.py",
                                                        "rxsci/operators/first.py", "rxsci/operators/take.py", "rxsci/operators/last.py",
                                                        "rxsci/data/lag.py", "rxsci/data/pad.py", "rxsci/operators/start_with.py",
-                                                       "rxsci/data/batch.py"), min_instances=1)],
-        "C11": [io.rule_framing, pr.rule_pr1, pr.rule_pr2, grp.rule_pr3, seq.rule_dp6, st.rule_st1, tm.rule_tm123, tm.rule_tm4,
+                                                       "rxsci/data/batch.py"), min_instances=1), ms.ms_for_types("int", "bool", "obj", maps=True)],
+        "C11": [io.rule_framing, pr.rule_pr1, pr.rule_pr2, grp.rule_pr3, seq.rule_dp6, st.rule_st1, tm.rule_tm123, tm.rule_tm4, io.rule_fr3_prompt,
                 *plumbing(*("rxsci/operators/scan.py", "rxsci/data/roll.py", "rxsci/data/split.py", "rxsci/data/time_split.py", "rxsci/operators/group_by.py",
                                        "rxsci/operators/tee_map.py", "rxsci/data/batch.py", "rxsci/operators/multiplex.py"))],
-        "C12": [ms.ms_for_types("int", "float", "bool", "obj"), scan.rule_sd1, num.rule_nm1, ag.rule_ag4, named(scan.rule_pu1, files=("rxsci/math/sum.py", "rxsci/math/mean.py", "rxsci/math/min.py", "rxsci/math/max.py",
+        "C12": [ms.ms_for_types("int", "float", "bool", "obj", maps=True), scan.rule_sd1, num.rule_nm1, ag.rule_ag4, named(scan.rule_pu1, files=("rxsci/math/sum.py", "rxsci/math/mean.py", "rxsci/math/min.py", "rxsci/math/max.py",
                                                           "rxsci/math/variance.py", "rxsci/math/stddev.py", "rxsci/math/formal/variance.py",
                                                           "rxsci/math/formal/stddev.py", "rxsci/math/formal/__init__.py"))],
-        "C13": er.RULES + [mx.rule_wc2, st.rule_st8, mx.rule_ev1, *plumbing(*("rxsci/error/ignore.py", "rxsci/error/map.py", "rxsci/error/router.py", "rxsci/operators/map.py",
+        "C13": er.RULES + [mx.rule_wc2, st.rule_st8, mx.rule_ev1, error_paths(mx.rule_mx_flat), *plumbing(*("rxsci/error/ignore.py", "rxsci/error/map.py", "rxsci/error/router.py", "rxsci/operators/map.py",
                                                                                    "rxsci/operators/starmap.py", "rxsci/operators/filter.py", "rxsci/operators/scan.py", "rxsci/operators/multiplex.py"))],
         "C14": ms.RULES,
         "C15": [io.rule_framing] + per_subscription(*FRAMING),
         "C16": [io.rule_compression] + per_subscription(*COMPRESSION),
-        "C17": [io.rule_codec] + per_subscription(*CODEC),
+        "C17": [io.rule_codec, io.rule_fr3] + per_subscription(*CODEC),
         "C18": [cont.rule_csv_tables, cont.rule_csv_merge, cont.rule_csv_classify, cont.rule_csv_file_modes, cont.rule_dp7, io.rule_fr3, io.rule_fh1_file, io.rule_fr1] + per_subscription("rxsci/container/csv.py", "rxsci/framing/line.py", *FILEIO),
         "C19": [cont.rule_ag7, io.rule_framing, io.rule_codec, io.rule_compression, io.rule_fr3, io.rule_fh1_file] + per_subscription("rxsci/container/json.py", *(FRAMING + COMPRESSION + CODEC + FILEIO)),
         "C20": [cont.rule_pu2, seq.rule_dp6, io.rule_fh1_parquet, scan.rule_sd1, scan.rule_sc1] + per_subscription("rxsci/container/parquet.py", "rxsci/data/batch.py", "rxsci/operators/scan.py"),
